@@ -38,6 +38,13 @@ def slices(tier):
         # conditional and closed by a (possibly transposing) component tensor
         Slice("zeros-mixed", [U, W3, F], {"index", "outer", "lt", "cond", "as_tensor"}, 6, idx=(10, 11), zerofi=[((10, 2), (11, 3))], maxdim=3,
               levels=[{"outer"}, {"index"}, {"lt"}, {"cond"}, {"as_tensor"}, PASSES], mikinds=("name",), chain=True, **kw),
+        # a component tensor that survives inside a conditional (not directly indexed), whose body has another free index that an
+        # enclosing component tensor binds and an outer subscript re-uses the inner bound index (capture hazard of remove_ct)
+        Slice("ct-in-cond", [U, F], {"index", "mul", "as_tensor", "abs", "lt", "cond"}, 11, idx=(10, 11, 12),
+              levels=[{"lt"}, {"index"}, {"index"}, {"mul"}, {"as_tensor"}, {"abs"}, {"cond"}, {"index"}, {"as_tensor"}, {"index"}, {"remove_ct"}], mikinds=("name",), chain="semi", **kw),
+        # a sum over an index whose summand contains a closed inner sum over the SAME index object, the outer index used afterwards
+        Slice("reuse-sum", [U, V], {"index", "mul", "lt", "cond"}, 7, idx=(10,), lits=[LIT["zero"]],
+              levels=[{"index"}, {"index"}, {"mul"}, {"lt"}, {"cond"}, {"mul"}, PASSES], mikinds=("name",), chain="semi", **kw),
         Slice("lists", [U, F], {"list", "index", "mul"}, 4, idx=(10,), levels=[{"index", "list"}, {"list", "index"}, {"index", "mul"}, PASSES], **kw),
         Slice("deep", [F, U, V, A], {"index", "as_tensor", "mul", "add", "list", "neg", "variable", "dot", "inner", "outer"}, 7, idx=(10, 11, 12), finalops=PASSES, tiny=True, simulate=8 if q else 200, depth=8),
     ]
